@@ -95,3 +95,25 @@ func WaitUntil(d time.Duration, cond func() bool) bool {
 		time.Sleep(500 * time.Microsecond)
 	}
 }
+
+// ChaosDebugger is a Debugger (public API) that turns the library's log calls into scheduling
+// points: about one call in P sleeps for a few dozen to a few hundred microseconds. It widens
+// every window that contains a log call without knowing where the windows are.
+type ChaosDebugger struct {
+	P    int
+	seed uint64
+}
+
+func (d *ChaosDebugger) Log(main string, v ...any) {
+	if d.P <= 0 {
+		return
+	}
+	// xorshift: cheap, racy on purpose (any value will do)
+	x := d.seed*6364136223846793005 + 1442695040888963407
+	d.seed = x
+	if int((x>>33)%uint64(d.P)) == 0 {
+		time.Sleep(time.Duration(20+(x>>40)%280) * time.Microsecond)
+	}
+}
+func (d *ChaosDebugger) WithContext(string) sio.Debugger                       { return d }
+func (d *ChaosDebugger) WithDynamicContext(string, func() string) sio.Debugger { return d }
